@@ -18,6 +18,25 @@ changed with set_design_var_options / set_constraint_options / set_objective_opt
 or left where the last run ended, setup() is called again, or the component's data are replaced before a
 re-setup.  Every run is judged by (i)-(iii) for the values current at that run; the last run is also compared,
 argument by argument of scipy.optimize.minimize, with a fresh Problem declared directly with the final values.
+
+Global-optimizer stratum (own generator, 2 problems per quick shard): the optimizers the driver calls through
+other scipy entry points than `minimize` - shgo and differential_evolution (constraints, bounds, linear flag,
+holes in array bounds; shgo with iters / n / stopped by maxiter, differential evolution with polish on/off,
+immediate/deferred updating, popsize), dual_annealing (with / without local search, stopped by maxiter) and
+basinhopping on the problem without its constraints - on boxed problems, for 2 of the 3 driver scalings.  The
+scipy entry point is wrapped, so the harness knows the last point the optimizer evaluated the model at and
+whether the driver evaluated the model again afterwards.  Judged like every other run: (i) with the tolerance
+of the round-off of the scaling maps (1e-11 relative; a model left at a finite-difference or line-search
+point 1e-8 away is a violation), (i') the outputs found in the model (f, g) are the component's formulas at the
+inputs found in the model, (ii) as above; (iii) is only held against OpenMDAO when a callback/argument
+monitor saw a wrong value (shgo with few iterations, DE without polish, annealing stopped by maxiter
+legitimately end near, not at, the optimum).
+
+Failpoint stratum (one global-optimizer case and one minimize-family case per problem of the global stratum): a
+twin Problem is run with the component raising AnalysisError at ONE model evaluation - the one the driver makes
+after the optimizer returned (the model being put at the returned design) or one the optimizer asked for.
+run_driver() must not report success; afterwards the SAME Problem/driver is run again without the fault and
+judged by the full oracle (keys rerun-after-model-exception:*).
 """
 import copy
 
@@ -37,11 +56,16 @@ RULE = ('random strictly convex QPs (n<=4 design variables in 1-2 inputs, 1-4 co
         'scalings {none, scaler/adder, ref/ref0; scalar and array}; a third of the problems as histories: the same '
         'Problem/driver run 2-3 times with {parameter entering f, g and the coefficients of the linear '
         'constraints, bounds/equals, scaling, start point (warm or set), re-setup, re-setup with new component '
-        'data} changed in between, then a fresh Problem with the final values; distinct = distinct (structure, '
-        'optimizer, scaling variant | stage, kinds of change); non-trivial = driver reported success and the '
-        'exact optimum exists')
+        'data} changed in between, then a fresh Problem with the final values; global-optimizer stratum: boxed '
+        'problems (n<=3) x {shgo, differential_evolution} (constrained) and {dual_annealing, basinhopping} '
+        '(constraints dropped) x 2 of the 3 scalings x random short-run settings (iters/n/maxiter, polish, '
+        'updating, popsize, no_local_search, niter); failpoint stratum: AnalysisError at the evaluation after the '
+        'optimizer returned / at one it asked for, then the same Problem run again; distinct = distinct '
+        '(structure, optimizer, scaling variant, optimizer settings | stage, kinds of change | fault kind); '
+        'non-trivial = driver reported success and the exact optimum exists')
 LEVEL_TEXT = ('every success reported on the sampled problems was checked elementwise against an independent '
-              'exact solution; no statement about unsampled problem classes (n>4, nonlinear g, other optimizers)')
+              'exact solution; no statement about unsampled problem classes (n>4, nonlinear g, the unconstrained '
+              'methods of scipy.optimize.minimize)')
 ASSUMPTIONS = [
     'the exact optimum of the strictly convex QP is the KKT point found by enumeration (re-certified: '
     'stationarity/primal/dual residuals < 1e-8)',
@@ -69,6 +93,22 @@ ASSUMPTIONS = [
     'slack of 1e-9 in the optimizer space; a start inside that band is discarded',
     'the last run of a history and the fresh Problem see the same optimizer-space problem from the same start: the '
     'arguments of scipy.optimize.minimize must agree within 1e-9 relative',
+    'model state: the harness maps the inputs found in the model (get_val) to optimizer space with its own '
+    'formulas and compares with result.x; both maps are affine, so the difference is round-off of the magnitudes '
+    'that enter: tolerance 1e-11*(1+|x|+|adder*scaler|+|unit offset*factor*scaler|) per element (>= 1e4 ulp; '
+    'observed: 0 or <= 1e-13); outputs vs inputs: 1e-11*(1+|terms of the formula|)',
+    'a miss of the optimum whose control run converges is blamed on OpenMDAO only if, in addition, run_driver() '
+    'repeated 10 times from the same start moved by 1e-13 relative never reaches the optimum (COBYQA: every value '
+    'handed to scipy within 1 ulp of the reference, yet the iterates separate from those of the control run after '
+    'a dozen evaluations and one of the two stops on its minimum trust radius away from the optimum)',
+    'global optimizers: every design variable element has two finite bounds; shgo is given opt_settings '
+    "maxiter=None or a small integer (the driver's default maxiter=200 makes shgo refine 200 times), "
+    'differential_evolution / dual_annealing / basinhopping a seed; a miss of the optimum is not held against '
+    'OpenMDAO unless a callback/argument monitor saw a wrong value; basinhopping (no bounds in scipy, emulated by '
+    'the driver through accept_test) is not judged against the design-variable bounds',
+    'failpoint stratum: the twin repeats the evaluation sequence of the clean run (deterministic optimizers / '
+    'fixed seeds); when the failpoint is not reached the case is discarded; run_driver() may raise anything or '
+    'report failure, only a reported success is a violation',
 ]
 MIN_JUDGED = {'quick': 300, 'thorough': 3000}
 REQUIRED_COUNTERS = ['obs:success:SLSQP', 'obs:success:COBYLA', 'obs:success:trust-constr',
@@ -78,13 +118,27 @@ REQUIRED_COUNTERS = ['obs:success:SLSQP', 'obs:success:COBYLA', 'obs:success:tru
                      'obs:history-rerun-judged', 'obs:history-compared-with-fresh-problem',
                      'obs:history-change:param', 'obs:history-change:cons-scaling', 'obs:history-change:cons-bounds',
                      'obs:history-change:resetup', 'obs:history-start:warm',
-                     'obs:history-rerun-linear-jacobian-compared']
+                     'obs:history-rerun-linear-jacobian-compared',
+                     'obs:success:shgo', 'obs:success:differential_evolution', 'obs:success:dual_annealing',
+                     'obs:success:basinhopping', 'obs:model-outputs-compared-with-model-inputs',
+                     'obs:optimizer-ended-elsewhere-than-returned-x:shgo',
+                     'obs:optimizer-ended-elsewhere-than-returned-x:dual_annealing',
+                     'obs:optimizer-ended-far-from-returned-x', 'obs:optimizer-ended-within-1e-6-from-returned-x',
+                     'obs:model-evaluated-again-after-optimizer-returned',
+                     'obs:fault-injected:restore', 'obs:fault-injected:mid',
+                     'obs:rerun-after-model-exception-judged']
 SHARD_TIMEOUT = {'quick': 900, 'thorough': 3000}
 
 OPTS = ['SLSQP', 'COBYLA', 'trust-constr', 'COBYQA']
 EQ_OPTS = ('SLSQP', 'trust-constr')
-NEW_STYLE = ('trust-constr', 'COBYQA')
+# optimizers that ScipyOptimizeDriver drives through another scipy entry point than scipy.optimize.minimize
+GLOBAL_OPTS = ('shgo', 'differential_evolution', 'dual_annealing', 'basinhopping')
+GLOBAL_CON = ('shgo', 'differential_evolution')          # ... those of them that take constraints
+NEW_STYLE = ('trust-constr', 'COBYQA', 'shgo', 'differential_evolution')
+# optimizers to which the driver hands a linear=True constraint as one scipy LinearConstraint object
+LIN_AS_OBJECT = ('trust-constr', 'shgo', 'differential_evolution')
 FEAS_TOL = 1e-6
+STATE_TOL = 1e-11     # model state vs returned x / outputs vs inputs: relative to the magnitudes that enter (see ASSUMPTIONS)
 
 
 # ----------------------------------------------------------------------------------------------
@@ -98,6 +152,65 @@ def make_driver(opt):
     if opt == 'SLSQP':
         d.opt_settings['ftol'] = 1e-12
     return d
+
+
+def make_global_driver(opt, gopts):
+    """ScipyOptimizeDriver for an optimizer outside scipy.optimize.minimize; `gopts` = {'maxiter': driver option
+    or None (= leave the driver's default), 'settings': opt_settings} (short runs: the problems are tiny)."""
+    import openmdao.api as om
+    d = om.ScipyOptimizeDriver(optimizer=opt, tol=1e-10, disp=False)
+    if gopts.get('maxiter') is not None:
+        d.options['maxiter'] = int(gopts['maxiter'])
+    d.opt_settings.update(copy.deepcopy(gopts.get('settings') or {}))
+    return d
+
+
+def rand_global_options(rng, opt):
+    if opt == 'shgo':
+        # opt_settings['maxiter']=None (as the repository's own shgo tests do) lets `iters` decide; an integer
+        # makes shgo stop on its iteration limit
+        st = {'maxiter': [None, None, 1, 2][int(rng.integers(4))], 'iters': int(rng.integers(1, 3))}
+        if rng.random() < 0.5:
+            st['n'] = int(rng.integers(6, 20))
+        return {'maxiter': None, 'settings': st}
+    if opt == 'differential_evolution':
+        st = {'seed': int(rng.integers(1, 10 ** 6)), 'popsize': int(rng.integers(4, 8)),
+              'polish': bool(rng.random() < 0.5)}
+        if rng.random() < 0.3:
+            st['updating'] = 'deferred'
+        return {'maxiter': int(rng.integers(40, 80)), 'settings': st}
+    if opt == 'dual_annealing':
+        st = {'seed': int(rng.integers(1, 10 ** 6))}
+        if rng.random() < 0.4:
+            st['no_local_search'] = True
+        return {'maxiter': int(rng.integers(15, 40)), 'settings': st}
+    return {'maxiter': None, 'settings': {'seed': int(rng.integers(1, 10 ** 6)), 'niter': int(rng.integers(2, 6))}}
+
+
+def gen_boxed(rng):
+    """Problem for the optimizers that sample a box: every design variable element gets both bounds (the
+    drawn ones are kept, absent ones are put 1-3 units beyond the point the bounds were drawn around)."""
+    spec = qpspec.random_spec(rng, n_max=3, m_max=3, scaling=False, units=True, dv_indices=False,
+                              equality=False, split_cons=True, dv_bounds='all', margin=1.0,
+                              units_p=0.35, offsets=True, families=FAMILIES)
+    ref = qpspec.RefModel(spec)
+    xf = np.asarray(spec['xfeas'], float)
+    for d, rd in zip(spec['dvs'], ref.dvs):
+        vd = af.to_units(xf[rd['pos']], rd['munits'], rd['units'])
+        fac, _ = af.unit_affine(rd['munits'], rd['units'])
+        w = abs(fac) * (1.0 + 2.0 * rng.random(2 * rd['size']))
+        if isinstance(d.get('lower'), list) or isinstance(d.get('upper'), list):
+            lo, hi = af.bound_arrays(d.get('lower'), d.get('upper'), rd['size'])
+            lo = np.where(lo <= -af.INF_BOUND, vd - w[:rd['size']], lo)
+            hi = np.where(hi >= af.INF_BOUND, vd + w[rd['size']:], hi)
+            d['lower'], d['upper'] = np.round(lo, 4).tolist(), np.round(hi, 4).tolist()
+        else:
+            if d.get('lower') is None:
+                d['lower'] = float(np.round(vd.min() - w[0], 4))
+            if d.get('upper') is None:
+                d['upper'] = float(np.round(vd.max() + w[-1], 4))
+        d['pat'] = 'B' * rd['size']
+    return spec
 
 
 def variants(spec, rng, with_neg):
@@ -453,6 +566,43 @@ def outcome_is_roundoff_sensitive(opt, mon, drv, zs, tol):
     return False
 
 
+def driver_outcome_is_roundoff_sensitive(p, drv, spec, mon, zs, tol, z_restore, acc):
+    """The mirror image of outcome_is_roundoff_sensitive on OpenMDAO's side: run_driver() is repeated
+    ROUNDOFF_TRIALS times on the same Problem from the same start point moved by 1e-13 relative.  True when
+    at least one repetition reports success at the optimum: then the miss that is being judged is one draw
+    of an outcome that flips under perturbations of round-off size (seen: COBYQA, every value handed to scipy
+    within 1 ulp of the reference, the iterates of the driver's run and of the control run separate at the
+    12th evaluation and one of the two stops on its minimum trust radius 0.016 from the optimum), and a
+    systematic fault in how OpenMDAO poses the problem would miss every time.  The model is put back at
+    `z_restore` afterwards (a later run of a history may start from there)."""
+    from omv.gen import qpmodel
+    cap = mon.captured
+    rng = np.random.default_rng(9001)
+    z0 = np.asarray(spec['x0'], float)
+    hit = False
+    try:
+        for t in range(ROUNDOFF_TRIALS):
+            qpmodel.set_z(p, spec, z0 + 1e-13 * (1.0 + np.abs(z0)) * rng.standard_normal(z0.size))
+            acc.count('obs:driver-side-roundoff-repetitions')
+            try:
+                p.run_driver()
+            except Exception:
+                continue
+            r = drv._scipy_optimize_result
+            if bool(drv.result.success) and not drv.fail and \
+                    np.max(np.abs(mon.sr.z(np.asarray(r.x, float).ravel()) - zs)) <= tol:
+                hit = True
+                break
+    finally:
+        mon.captured = cap
+        try:
+            qpmodel.set_z(p, spec, z_restore)
+            p.run_model()
+        except Exception:
+            pass
+    return hit
+
+
 def run_control(opt, mon, drv, absent=np.inf, noise=None):
     """The same optimizer-space problem posed directly to scipy from the reference formulas, with the
     same options.  Returns x or None (control failed / raised).  `absent` is the number used for an
@@ -522,7 +672,7 @@ def classify_element(opt, mon, c, k, side, linrep):
     """Mechanism key for a violated constraint element of a reported success, or None when every monitor
     says the problem was posed correctly (then the optimizer itself is to blame)."""
     cd = c['d']
-    lin = bool(cd.get('linear')) and opt == 'trust-constr'
+    lin = bool(cd.get('linear')) and opt in LIN_AS_OBJECT
     style = 'new-style' if opt in NEW_STYLE else 'old-style'
     if lin:
         m = linrep.get(c['key'])
@@ -580,6 +730,19 @@ def _guards(ref, spec, opt, acc):
     return ex
 
 
+def _new_driver(case):
+    return make_global_driver(case['opt'], case['gopts']) if case['opt'] in GLOBAL_OPTS else make_driver(case['opt'])
+
+
+def _settings_structure(case):
+    """the optimizer settings of a case without the random seed (for fingerprints / cells)."""
+    g = case.get('gopts')
+    if not g:
+        return None
+    return sorted((k, str(v)) for k, v in dict(g.get('settings') or {}, maxiter_option=g.get('maxiter')).items()
+                  if k != 'seed')
+
+
 def judge(case, acc):
     if case.get('stages') is not None:
         return judge_history(case, acc)
@@ -589,16 +752,104 @@ def judge(case, acc):
     variant = case['variant']
     spec = qphist.effective(case['spec'])
     ref = qpspec.RefModel(spec)
-    fp = fingerprint({'st': qpspec.structure(spec), 'opt': opt, 'variant': variant})
+    fp = fingerprint({'st': qpspec.structure(spec), 'opt': opt, 'variant': variant, 'g': _settings_structure(case)})
     ex = _guards(ref, spec, opt, acc)
     if ex is None:
         return
-    drv = make_driver(opt)
+    drv = _new_driver(case)
     p = None
     try:
         p, comp = qpmodel.build(case['spec'], driver=drv)
         p.final_setup()
-        run_and_judge(p, drv, spec, ref, ex, opt, variant, case, acc, fp)
+        info = run_and_judge(p, drv, spec, ref, ex, opt, variant, case, acc, fp)
+        if opt in GLOBAL_OPTS:
+            acc.count('cell:global/%s/%s' % (opt, ','.join('%s=%s' % kv for kv in _settings_structure(case))))
+    finally:
+        if p is not None:
+            try:
+                p.cleanup()
+            except Exception:
+                pass
+    if case.get('fault') and info['status'] in ('ok', 'skip', 'failed', 'viol') and info.get('n_ret') is not None:
+        judge_fault(case, spec, ref, ex, info, acc)
+
+
+class _Injected(Exception):
+    pass
+
+
+def judge_fault(case, spec, ref, ex, clean, acc):
+    """Failpoint stratum.  `clean` = the run of this case without a fault (it logged how many model evaluations
+    the optimizer made and whether the driver evaluated the model again after the optimizer had returned).
+    A fresh, identical Problem is run with the component raising om.AnalysisError at ONE evaluation:
+      'restore' - the evaluation the driver makes after the optimizer returned (the model being put at the
+                  returned design), when there is one;
+      'mid'     - one of the evaluations the optimizer asks for (not the first one, which run() makes itself).
+    run_driver() may raise or report failure; it must not report success (the model could not be evaluated
+    at the design / somewhere on the way, and the outputs in the model are not those of the design).  Then
+    the SAME Problem/driver is run again without the fault from the original start and judged by the full
+    oracle (keys prefixed rerun-after-model-exception:): nothing of the aborted run may leak into it."""
+    import openmdao.api as om
+    from omv.gen import qpmodel
+    opt = case['opt']
+    kind = case['fault']['kind']
+    n0, n_ret, n_tot = clean['n0'], clean['n_ret'], clean['n_tot']
+    if kind == 'restore':
+        if n_tot <= n_ret:
+            acc.skip('fault-stratum:no-evaluation-after-the-optimizer-returned')
+            return
+        k_abs = n_ret
+    else:
+        if n_ret - n0 < 3:
+            acc.skip('fault-stratum:too-few-evaluations')
+            return
+        k_abs = n0 + 1 + int(case['fault']['u'] * (n_ret - n0 - 1))
+    fp = fingerprint({'st': qpspec.structure(spec), 'opt': opt, 'variant': case['variant'], 'fault': kind,
+                      'g': _settings_structure(case)})
+    drv = _new_driver(case)
+    p = None
+    try:
+        p, comp = qpmodel.build(case['spec'], driver=drv)
+        p.final_setup()
+        orig = comp.compute
+        st = {'armed': True, 'hit': 0}
+
+        def compute(inputs, outputs, *a, **kw):
+            if st['armed'] and len(comp.evals) == k_abs:
+                st['armed'] = False
+                st['hit'] += 1
+                comp.evals.append(np.array(comp._z(inputs), float))
+                raise om.AnalysisError('omv: injected failure of the model evaluation')
+            return orig(inputs, outputs, *a, **kw)
+        comp.compute = compute
+        raised = None
+        try:
+            p.run_driver()
+        except Exception as e:   # noqa
+            raised = e
+        st['armed'] = False
+        comp.compute = orig
+        if not st['hit']:
+            # (the twin did not repeat the evaluation sequence of the clean run)
+            acc.skip('fault-stratum:failpoint-not-reached')
+            return
+        acc.count('obs:fault-injected:%s' % kind)
+        acc.count('obs:fault-injected:%s:%s' % (kind, 'global' if opt in GLOBAL_OPTS else 'minimize'))
+        if raised is None and bool(drv.result.success) and not drv.fail:
+            acc.viol('%s:success-reported-although-the-model-raised-at-%s' % (
+                opt, 'the-final-evaluation-at-the-returned-design' if kind == 'restore' else
+                'an-evaluation-the-optimizer-asked-for'),
+                'AnalysisError raised by the component at model evaluation #%d of %d (%s); run_driver() returned '
+                'success' % (k_abs - n0 + 1, n_tot - n0, kind), case, fp=fp)
+            return
+        acc.count('obs:fault-outcome:%s' % ('reported-failure' if raised is None else (
+            'AnalysisError-raised' if isinstance(raised, om.AnalysisError) else 'other-exception-raised')))
+        # ---- the same Problem again, without the fault, from the original start
+        qpmodel.set_z(p, spec, spec['x0'])
+        info = run_and_judge(p, drv, spec, ref, ex, opt, case['variant'], case, acc, fp,
+                             pre='rerun-after-model-exception:')
+        if info['status'] in ('ok', 'viol'):
+            acc.count('obs:rerun-after-model-exception-judged')
     finally:
         if p is not None:
             try:
@@ -623,8 +874,16 @@ def run_and_judge(p, drv, spec, ref, ex, opt, variant, case, acc, fp, pre='', wa
     has_lin = any(c.get('linear') for c in spec['cons'])
     neg = variant.startswith('neg')
     cell = 'cell:%s/%s/%s' % (opt, variant, 'eq' if has_eq else ('lin' if has_lin else 'nl'))
-    orig_min = so.minimize
-    info = {'status': None, 'mon': None, 'z': None}
+    glob = opt in GLOBAL_OPTS
+    if glob:
+        # (the driver imports these from scipy.optimize at the moment it calls them)
+        import scipy.optimize as spy_mod
+        spy_name = opt
+    else:
+        spy_mod, spy_name = so, 'minimize'
+    orig_min = getattr(spy_mod, spy_name)
+    comp = p.model._get_subsystem('qp')
+    info = {'status': None, 'mon': None, 'z': None, 'n0': len(comp.evals), 'n_ret': None}
 
     def viol(key, what, **kw):
         info['status'] = 'viol'
@@ -639,13 +898,18 @@ def run_and_judge(p, drv, spec, ref, ex, opt, variant, case, acc, fp, pre='', wa
         info['mon'] = mon
         mon.install()
 
-        def spy(fun, x0, **kw):
-            mon.captured = dict(kw, x0=np.array(x0, float))
+        def spy(fun, *a, **kw):
+            x0 = a[0] if a else kw.get('x0')
+            mon.captured = dict(kw, x0=None if x0 is None else np.array(x0, float))
             acc.count('obs:minimize-arguments-captured')
             if pose_only:
                 raise _PoseOnly()
-            return orig_min(fun, x0, **kw)
-        so.minimize = spy
+            r = orig_min(fun, *a, **kw)
+            # the last point the optimizer evaluated the model at (the component logs every evaluation)
+            info['n_ret'] = len(comp.evals)
+            info['z_last'] = np.array(comp.evals[-1], float) if comp.evals else None
+            return r
+        setattr(spy_mod, spy_name, spy)
         try:
             p.run_driver()
         except _PoseOnly:
@@ -665,6 +929,15 @@ def run_and_judge(p, drv, spec, ref, ex, opt, variant, case, acc, fp, pre='', wa
                 return info
             if neg:
                 key = 'neg-scaler:%s:raises:%s@%s' % (variant, type(e).__name__, where)
+            elif glob:
+                holes = any('N' in (c.get('pat') or '') for c in spec['cons'])
+                if opt == 'shgo' and isinstance(e, IndexError) and holes and mon.captured is not None:
+                    key = 'run_driver-raises:shgo:constraint-element-without-any-bound:IndexError@%s' % where
+                elif opt == 'shgo' and has_lin and 'keep_feasible' in msg:
+                    key = 'run_driver-raises:shgo:linear-constraint-passed-with-keep_feasible:%s@%s' % (
+                        type(e).__name__, where)
+                else:
+                    key = 'run_driver-raises:%s:%s@%s:%s' % (opt, type(e).__name__, where, _stratum(spec))
             elif lin_tc:
                 linrep = mon.linear_constraint_report() if mon.captured is not None else {
                     c['key']: ('array-constraint-rejected-before-minimize' if c['size'] > 1 else
@@ -684,16 +957,18 @@ def run_and_judge(p, drv, spec, ref, ex, opt, variant, case, acc, fp, pre='', wa
             info['status'] = 'raised'
             return info
         finally:
-            so.minimize = orig_min
+            setattr(spy_mod, spy_name, orig_min)
             mon.uninstall()
+        info['n_tot'] = len(comp.evals)
         success = bool(drv.result.success) and not drv.fail
         acc.count(cell)
         if mon.stale:
             acc.count('obs:runs-with-stale-constraint-values:' + opt)
         style = 'new-style' if opt in NEW_STYLE else 'old-style'
-        if not neg:
+        if not neg and opt != 'basinhopping':
             # what was handed to scipy.optimize.minimize, against the declaration (every run, not only when
             # a violation needs an explanation: a stale bound that is too tight only costs optimality)
+            # (scipy's basinhopping takes no bounds; the driver emulates them in its accept_test)
             mon.args_label = _arguments_label(mon, ref, opt, acc)
         lab = mon.label(style)
         info['lab'] = lab
@@ -706,7 +981,7 @@ def run_and_judge(p, drv, spec, ref, ex, opt, variant, case, acc, fp, pre='', wa
         acc.count('obs:success:' + opt)
         res = drv._scipy_optimize_result
         z_model = qpmodel.get_z(p, spec)
-        linrep = mon.linear_constraint_report() if (has_lin and opt == 'trust-constr') else {}
+        linrep = mon.linear_constraint_report() if (has_lin and opt in LIN_AS_OBJECT) else {}
         if linrep and pre:
             acc.count('obs:history-rerun-linear-jacobian-compared')
         bad = []
@@ -714,14 +989,7 @@ def run_and_judge(p, drv, spec, ref, ex, opt, variant, case, acc, fp, pre='', wa
         # ---- (i) model left at the returned design (compared in optimizer space)
         xret = np.asarray(res.x, float).ravel()
         z = mon.sr.z(xret)                                # the reported design, model units
-        xs_model = np.concatenate([v['scaled'] for v in ref.dv_vals(z_model).values()])
-        acc.count('obs:model-state-compared')
-        dx = np.max(np.abs(xs_model - xret) / (1.0 + np.abs(xret)))
-        if dx > FEAS_TOL:
-            # (independent of the bounds: also keyed by optimizer in the negative-scaler stratum)
-            key = '%s:model-state-differs-from-returned-x' % opt
-            bad.append((key, 'model is left at z=%s but the optimizer returned (unscaled) %s'
-                        % (z_model.tolist(), z.tolist())))
+        bad += model_state_findings(p, ref, opt, xret, z, z_model, info, acc)
         info['z'] = z
         if lab:
             acc.count('obs:anomaly:%s%s' % ('neg-scaler-stratum:' if neg else '', lab))
@@ -783,7 +1051,7 @@ def run_and_judge(p, drv, spec, ref, ex, opt, variant, case, acc, fp, pre='', wa
                                 acc.count('guard:violation-on-correctly-posed-problem:' + opt)
                             else:
                                 bad.append((key, what))
-                        elif not shown and not (cd.get('linear') and opt == 'trust-constr'):
+                        elif not shown and not (cd.get('linear') and opt in LIN_AS_OBJECT):
                             unenforced_inactive += 1
             for d in ref.dvs:
                 vd = af.to_units(z[d['pos']], d['munits'], d['units'])
@@ -796,6 +1064,12 @@ def run_and_judge(p, drv, spec, ref, ex, opt, variant, case, acc, fp, pre='', wa
                             continue
                         viol_d = sign * (vd[k] - bnd)
                         tol_d = FEAS_TOL * (1.0 + abs((bnd + a[k]) * s[k])) / abs(s[k])
+                        if viol_d > tol_d and opt == 'basinhopping':
+                            # scipy's basinhopping knows no bounds; the driver only rejects hops that end
+                            # outside them (accept_test), the local minimizations are unbounded: not judged
+                            acc.count('obs:basinhopping-design-outside-desvar-bounds')
+                            infeasible = True
+                            continue
                         if viol_d > tol_d:
                             infeasible = True
                             what = 'design var %s[%d]=%.9g violates %s=%.9g by %.3g' % (
@@ -838,6 +1112,11 @@ def run_and_judge(p, drv, spec, ref, ex, opt, variant, case, acc, fp, pre='', wa
                     acc.count('guard:trust-constr-stopped-on-gtol-before-barrier-parameter-reduced')
                 elif lab:
                     bad.append((lab + ':not-the-optimum', what))
+                elif glob and not lin_m:
+                    # shgo confines its local minimizations to the star of a sampling vertex, differential
+                    # evolution without polish / dual annealing stopped by maxiter end near, not at, the
+                    # optimum: with every value handed to scipy observed correct, a miss is scipy's
+                    acc.count('guard:global-optimizer-misses-optimum-on-correctly-posed-problem:' + opt)
                 elif lin_m:
                     bad.append(('new-style-linear-constraint:%s:not-the-optimum' % lin_m, what))
                 else:
@@ -848,6 +1127,11 @@ def run_and_judge(p, drv, spec, ref, ex, opt, variant, case, acc, fp, pre='', wa
                             outcome_is_roundoff_sensitive(opt, mon, drv, zs, tol):
                         blamed_scipy = True
                         acc.count('guard:optimizer-outcome-sensitive-to-roundoff:' + opt)
+                    elif xc is not None and np.max(np.abs(mon.sr.z(xc) - zs)) <= tol and not (
+                            _finite_infinity_passed(mon) and opt in NEW_STYLE) and \
+                            driver_outcome_is_roundoff_sensitive(p, drv, spec, mon, zs, tol, z_model, acc):
+                        blamed_scipy = True
+                        acc.count('guard:optimizer-outcome-sensitive-to-roundoff-of-the-start-point:' + opt)
                     elif xc is not None and np.max(np.abs(mon.sr.z(xc) - zs)) <= tol:
                         key = '%s:not-the-optimum-while-control-run-converges:%s' % (opt, _stratum(spec))
                         if opt in NEW_STYLE and _finite_infinity_passed(mon):
@@ -879,7 +1163,57 @@ def run_and_judge(p, drv, spec, ref, ex, opt, variant, case, acc, fp, pre='', wa
             acc.ok(fp, sample=case if acc.judged % 97 == 0 else None)
         return info
     finally:
-        so.minimize = orig_min
+        setattr(spy_mod, spy_name, orig_min)
+
+
+def model_state_findings(p, ref, opt, xret, z, z_model, info, acc):
+    """(i) the design variables found in the model are the returned x (optimizer space, compared with the
+    round-off of the two affine maps: STATE_TOL relative to |x| + |adder*scaler| + |unit offset| per element);
+    (i') the outputs found in the model (f, g) are the component's formulas at the inputs found in the model.
+    -> list of (key, what)"""
+    out = []
+    xs_model = np.concatenate([v['scaled'] for v in ref.dv_vals(z_model).values()])
+    mags = []
+    for d in ref.dvs:
+        s_, a_ = af.scaler_adder(d['sc'], d['size'])
+        ufac, uoff = af.unit_affine(d['munits'], d['units'])
+        mags.append(np.abs(a_ * s_) + np.abs(uoff * ufac * s_))
+    mag = 1.0 + np.abs(xret) + np.concatenate(mags)
+    acc.count('obs:model-state-compared')
+    acc.count('obs:model-state-compared:' + opt)
+    dx = float(np.max(np.abs(xs_model - xret) / mag))
+    acc.count('obs:model-state-distance:%s' % ('zero' if dx == 0.0 else ('le1e-13' if dx <= 1e-13 else (
+        'le1e-11' if dx <= STATE_TOL else ('le1e-6' if dx <= 1e-6 else 'gt1e-6')))))
+    z_last = info.get('z_last')
+    if z_last is not None and info.get('n_ret') is not None:
+        # did the optimizer itself leave the model somewhere else than at the design it returned ?
+        far = float(np.max(np.abs(z_last - z) / (1.0 + np.abs(z))))
+        if far > 1e-12:
+            acc.count('obs:optimizer-ended-elsewhere-than-returned-x')
+            acc.count('obs:optimizer-ended-elsewhere-than-returned-x:' + opt)
+            acc.count('obs:optimizer-ended-%s-from-returned-x' % ('within-1e-6' if far <= 1e-6 else 'far'))
+        if info.get('n_tot', 0) > info['n_ret']:
+            acc.count('obs:model-evaluated-again-after-optimizer-returned')
+    # outputs as the component computes them from the inputs found in the model
+    f_m = float(np.ravel(p.get_val('f'))[0])
+    g_m = np.array(p.get_val('g'), float).ravel()
+    az = np.abs(z_model)
+    mf = 1.0 + 0.5 * az @ np.abs(ref.Q) @ az + np.abs(ref.c) @ az
+    mg = 1.0 + np.abs(ref.A) @ az + np.abs(ref.b)
+    stale_out = abs(f_m - ref.f(z_model)) > STATE_TOL * mf or np.any(np.abs(g_m - ref.g(z_model)) > STATE_TOL * mg)
+    acc.count('obs:model-outputs-compared-with-model-inputs')
+    if dx > STATE_TOL:
+        # (independent of the bounds: also keyed by optimizer in the negative-scaler stratum)
+        out.append(('%s:model-state-differs-from-returned-x' % opt,
+                    'model is left at z=%s but the optimizer returned (unscaled) %s (distance %.3g relative, in '
+                    'optimizer space; the outputs found in the model %s those inputs)'
+                    % (z_model.tolist(), z.tolist(), dx, 'do NOT belong to' if stale_out else 'belong to')))
+    elif stale_out:
+        out.append(('%s:model-outputs-not-evaluated-at-the-returned-design' % opt,
+                    'the design variables in the model are the returned design z=%s but f=%.12g, g=%s in the model '
+                    'are not the outputs at these inputs (f=%.12g, g=%s)'
+                    % (z_model.tolist(), f_m, g_m.tolist(), ref.f(z_model), ref.g(z_model).tolist())))
+    return out
 
 
 def _bounds_kwargs(v, con):
@@ -1096,11 +1430,15 @@ def _arguments_label(mon, ref, opt, acc):
     objs = list(cap.get('constraints') or [])
     i = 0
     for c in ref.cons:
-        if c['d'].get('linear') and opt == 'trust-constr':
+        if c['d'].get('linear') and opt in LIN_AS_OBJECT:
             i += 1          # one LinearConstraint: see Monitor.linear_constraint_report
             continue
         lo, hi = mon.sr.lo[c['key']], mon.sr.hi[c['key']]
         for k in range(c['size']):
+            if abs(lo[k]) >= af.INF_BOUND and abs(hi[k]) >= af.INF_BOUND and not (
+                    i < len(objs) and type(objs[i]).__name__ == 'NonlinearConstraint' and
+                    np.all(np.isinf(np.asarray(objs[i].lb, float))) and np.all(np.isinf(np.asarray(objs[i].ub, float)))):
+                continue     # an element without any bound need not be handed to the optimizer
             if i >= len(objs) or type(objs[i]).__name__ != 'NonlinearConstraint':
                 return None  # the layout itself is judged through Monitor.sides
             for got, want in ((objs[i].lb, lo[k]), (objs[i].ub, hi[k])):
@@ -1200,7 +1538,8 @@ def _stratum(spec):
 def shards(tier, seed):
     nsh = 16 if tier == 'quick' else 32
     nprob = 6 if tier == 'quick' else 40
-    return [{'seed': seed * 100003 + 7919 * k + 11, 'n': nprob, 'tier': tier} for k in range(nsh)]
+    ng = 2 if tier == 'quick' else 10
+    return [{'seed': seed * 100003 + 7919 * k + 11, 'n': nprob, 'ng': ng, 'tier': tier} for k in range(nsh)]
 
 
 def _acceptable(eff):
@@ -1233,7 +1572,38 @@ def gen_histories(rng, base):
     return out
 
 
+def gen_global_cases(rng, nprob):
+    """Per problem: shgo and differential_evolution on the constrained problem for 2 of its 3 driver scalings,
+    dual_annealing and basinhopping on the problem without its constraints, one of them with a failpoint, and
+    one optimizer of the minimize family with a failpoint."""
+    out = []
+    for j in range(nprob):
+        base = gen_boxed(rng)
+        vs = variants(base, rng, with_neg=False)
+        fault_slot = int(rng.integers(6))
+        slot = 0
+        for opt in GLOBAL_OPTS:
+            order = [int(k) for k in rng.permutation(len(vs))]
+            for k in order[:2 if opt in GLOBAL_CON else 1]:
+                variant, spec = vs[k]
+                if opt not in GLOBAL_CON:
+                    spec = copy.deepcopy(spec)
+                    spec['cons'] = []
+                case = {'spec': spec, 'opt': opt, 'variant': variant, 'gopts': rand_global_options(rng, opt)}
+                if slot == fault_slot:
+                    case['fault'] = {'kind': ('restore', 'mid')[int(rng.integers(2))], 'u': float(rng.random())}
+                slot += 1
+                out.append(case)
+        variant, spec = vs[int(rng.integers(len(vs)))]
+        out.append({'spec': spec, 'opt': OPTS[int(rng.integers(len(OPTS)))], 'variant': variant,
+                    'fault': {'kind': ('restore', 'mid')[int(rng.integers(2))], 'u': float(rng.random())}})
+    return out
+
+
 def run_shard(shard, acc):
+    # (own generator: the cases of the other strata do not depend on this one)
+    for case in gen_global_cases(np.random.default_rng(shard['seed'] + 500009), shard.get('ng', 0)):
+        judge(case, acc)
     rng = np.random.default_rng(shard['seed'])
     for i in range(shard['n']):
         base = gen_base(rng)
